@@ -62,7 +62,7 @@ def column_name(index):
     return name
 
 
-def encode(sheets, stored=False, date1904=False):
+def encode(sheets, stored=False, date1904=False, hidden=None):
     shared = []
     shared_index = {}
     sheet_xml = []
@@ -103,7 +103,8 @@ def encode(sheets, stored=False, date1904=False):
         'spreadsheetml.worksheet+xml"/>' % (index + 1) for index in range(count))
     workbook = ('<?xml version="1.0" encoding="UTF-8" standalone="yes"?><workbook xmlns="%s" xmlns:r="%s">%s<sheets>%s'
                 "</sheets></workbook>") % (_MAIN, _REL, '<workbookPr date1904="1"/>' if date1904 else "", "".join(
-                    '<sheet name="Sheet%d" sheetId="%d" r:id="rId%d"/>' % (i + 1, i + 1, i + 1) for i in range(count)))
+                    '<sheet name="Sheet%d" sheetId="%d"%s r:id="rId%d"/>' % (
+                        i + 1, i + 1, ' state="%s"' % (hidden or {})[i] if i in (hidden or {}) else "", i + 1) for i in range(count)))
     workbook_rels = ('<?xml version="1.0" encoding="UTF-8" standalone="yes"?><Relationships xmlns="http://schemas.'
                      'openxmlformats.org/package/2006/relationships">%s'
                      '<Relationship Id="rId%d" Type="%s/styles" Target="styles.xml"/>'
